@@ -10,3 +10,6 @@ import EmbitModel.Crypto.Secp256k1
 import EmbitModel.Model.Tx
 import EmbitModel.Spec.Wire
 import EmbitModel.Props.C03
+import EmbitModel.Model.Sighash
+import EmbitModel.Spec.Consensus
+import EmbitModel.Props.C01
